@@ -35,6 +35,7 @@ import (
 	"pgregory.net/rapid"
 
 	"verif/harness/internal/ev"
+	"verif/harness/internal/loglevel"
 )
 
 func TestMain(m *testing.M) {
@@ -849,6 +850,9 @@ func TestSequentialWindows(t *testing.T) {
 	r := ev.New(t, "C09")
 	rapid.Check(t, func(t *rapid.T) {
 		c := genCase(t, genOpts{maxSteps: 60, resize: true, onGrid: true, minRem: 1})
+		level := loglevel.Gen().Draw(t, "log level")
+		r.Class("log level " + level)
+		defer loglevel.Set(level)()
 		r.Case()
 		obs, err := run(c, nil)
 		if err != nil {
@@ -928,6 +932,9 @@ func TestBurst(t *testing.T) {
 	r := ev.New(t, "C09")
 	rapid.Check(t, func(t *rapid.T) {
 		c := genCase(t, genOpts{maxSteps: 14, burst: true, minRem: 1})
+		level := loglevel.Gen().Draw(t, "log level")
+		r.Class("log level " + level)
+		defer loglevel.Set(level)()
 		r.Case()
 		obs, err := run(c, nil)
 		if err != nil {
